@@ -106,6 +106,8 @@ type Exec struct {
 	closureIDs          map[*ClosureRef]int64
 	concreteSolverCalls int
 	GlobalFacts         []*Term
+	freshErrs           []*Term
+	ioErrAxiomDone      bool
 	assignSrcType       types.Type
 	lockRules           []lockRule
 	guardRules          []guardRule
@@ -615,7 +617,10 @@ func (x *Exec) assumeLeaf(st *State, li leafInfo, t *Term) {
 		}
 	case "len", "off":
 		st.assumeRaw(And(Le(IntLit(0), t), Le(t, IntLit(1<<40))))
-	case "ptr", "map", "opaque", "func", "base":
+	case "ptr", "map", "base":
+		// object identities live below 2^48; ghost identities (response header maps) above
+		st.assumeRaw(And(Le(IntLit(0), t), Le(t, IntLit(1<<48))))
+	case "opaque", "func":
 		st.assumeRaw(Le(IntLit(0), t))
 	}
 }
@@ -743,7 +748,7 @@ func (x *Exec) heapStore(st *State, p PtrV, v Value) {
 // alloc returns a fresh non-nil address.
 func (x *Exec) allocAddr(st *State, hint string) *Term {
 	a := Var(x.fresh("addr_"+sanitize(hint)), SInt)
-	st.assumeRaw(Gt(a, IntLit(0)))
+	st.assumeRaw(And(Gt(a, IntLit(0)), Le(a, IntLit(1<<48))))
 	st.assumeRaw(Not(Select(st.alloc, a)))
 	st.alloc = Store(st.alloc, a, TTrue)
 	return a
